@@ -75,7 +75,29 @@ def build(seed):
                 M.decl[n] = (rng.choice(KINDS), rng.choice(["public", "public", "private"]))
     exportsA = {n: kd for n, (kd, acc) in A.decl.items() if acc == "public"}
     # B uses A
-    form = rng.choice(["plain", "only", "none"])
+    locals_ = []  # local names given by renames: referenced like the pool names
+
+    def use_rename(S):
+        # `use a, l => n` without ONLY: everything public comes in, n only under its local name (so the scope, or its host,
+        # may have an `n` of its own)
+        ren = rng.sample(sorted(exportsA), rng.randint(1, min(2, len(exportsA))))
+        S.use_stmt = f"use {A.name}, " + ", ".join(f"l{S.kind[0]}{n} => {n}" for n in ren)
+        for n, kd in exportsA.items():
+            if n in ren:
+                S.imports[f"l{S.kind[0]}{n}"] = (A, n, kd)
+                locals_.append(f"l{S.kind[0]}{n}")
+            else:
+                S.imports[n] = (A, n, kd)
+
+    def use_two(S):
+        # one USE statement per imported group of names: the union is imported
+        sel = rng.sample(sorted(exportsA), rng.randint(2, len(exportsA)))
+        k = rng.randint(1, len(sel) - 1)
+        S.use_stmt = f"use {A.name}, only: " + ", ".join(sel[:k]) + f"\nuse {A.name}, only: " + ", ".join(sel[k:])
+        for n in sel:
+            S.imports[n] = (A, n, exportsA[n])
+
+    form = rng.choice(["plain", "only", "none", "rename", "two"])
     if form == "plain":
         B.use_stmt = f"use {A.name}"
         for n, kd in exportsA.items():
@@ -85,15 +107,24 @@ def build(seed):
         B.use_stmt = f"use {A.name}, only: " + ", ".join(sel)
         for n in sel:
             B.imports[n] = (A, n, exportsA[n])
+    elif form == "rename" and exportsA:
+        use_rename(B)
+    elif form == "two" and len(exportsA) >= 2:
+        use_two(B)
     for n in POOL:
         if n not in B.imports and rng.random() < 0.5:
             B.decl[n] = (rng.choice(KINDS), "public")
     # P1 may use A itself (names not declared locally)
-    if exportsA and rng.random() < 0.4:
+    r1 = rng.random()
+    if exportsA and r1 < 0.4:
         sel = rng.sample(sorted(exportsA), rng.randint(1, len(exportsA)))
         P1.use_stmt = f"use {A.name}, only: " + ", ".join(sel)
         for n in sel:
             P1.imports[n] = (A, n, exportsA[n])
+    elif exportsA and r1 < 0.5:
+        use_rename(P1)
+    elif len(exportsA) >= 2 and r1 < 0.6:
+        use_two(P1)
     for S, kinds_allowed in ((P1, ["type", "proc", "absint"]), (I1, ["type", "absint"]), (P2, ["type", "absint"])):
         for n in POOL:
             if n not in S.imports and rng.random() < 0.35:
@@ -103,7 +134,7 @@ def build(seed):
     # reference slots
     sid = 0
     for S in (B, P1, I1, P2):
-        for n in POOL + ["nz"]:
+        for n in POOL + ["nz"] + locals_:
             found = lookup(S, n)
             for slot, cls in (("vartype", "type"), ("extends", "type"), ("procptr", "procish"), ("binding", "proc"), ("deferred", "procish"),
                               ("final", "proc"), ("call", "proc")):
